@@ -2,7 +2,7 @@
    via_modify is the Gallina transcription of ViaModifier.ModifyRequest with the
    shapes/constants of the current source (Tables.v); a tag is name ++ "-" ++ hex(10 random bytes). *)
 From G01 Require Import Via ViaCheck ViaProofs Ob18.
-From G01 Require Import ReqE2E ReqProofs RouteProofs Ob01.
+From G01 Require Import ReqE2E ReqProofs RouteProofs Ob01 RouteOracle.
 
 (* The forwarded request carries ONE Via field whose list elements are all elements received
    (over all field lines, in order) followed by exactly this instance's element, with the
@@ -158,6 +158,45 @@ Print Assumptions T18_two_instance_route.
 Theorem T18_transport_is_wire : forall x r, wire_ok (q_hdr r) (transport_hdr x r).
 Proof. exact transport_hdr_is_wire. Qed.
 Print Assumptions T18_transport_is_wire.
+
+(* ---- ROUTES OF ANY LENGTH at the level of the Via chain.  model_route is the executable route model the end-to-end
+   runs compare with real routes of proxy instances (ecase_model_ok); ecase_prop_ok is the route oracle they evaluate
+   on what the real routes did.  hops_ok: every hop's tag is a list element of its own (no comma / white space, not
+   empty) and the versions are one digit. ---- *)
+(* For EVERY route (any number of hops, instances repeated or not, same-name instances, any client chain, CONNECT or
+   not) the observation the model predicts passes the route oracle: refusal with 400 and no origin contact at the
+   first hop that finds its own element, otherwise one origin contact with the client's chain followed by the hops'
+   elements in order. *)
+Theorem T18_route_model_satisfies_oracle : forall hops lines connect,
+  hops_ok hops -> tags_unique hops = true ->
+  ecase_model_ok (predicted_ecase hops lines connect) = true /\ ecase_prop_ok (predicted_ecase hops lines connect) = true.
+Proof. exact route_model_satisfies_oracle. Qed.
+Print Assumptions T18_route_model_satisfies_oracle.
+
+(* A forwarding loop of any length terminates at its first repetition: whatever hops precede the first visit of an
+   instance, lie between its two visits and follow, the route is refused with 400 (never delivered). *)
+Theorem T18_route_refused_at_repetition : forall pre p mid p' post h,
+  hp_tag p <> [] -> hp_tag p' = hp_tag p ->
+  model_route (pre ++ p :: mid ++ p' :: post) false h = RouteRefused 400.
+Proof. exact route_refused_at_repetition. Qed.
+Print Assumptions T18_route_refused_at_repetition.
+
+(* With "Connection: Via" from the client the first hop drops the chain before looking at it (known finding
+   e2e-loop-not-refused-connection-nominates-via): the route oracle is refuted for nominated chains. *)
+Theorem T18_route_nominated_refuted : exists p lines vl,
+  hops_ok [p] /\ own_elem (hp_tag p) lines = true /\ model_route [p] true (lines_hmap lines) = RouteDelivered vl /\ spec_route [p] true false (chain lines) false 200 1 vl = false.
+Proof. exact route_nominated_refuted. Qed.
+Print Assumptions T18_route_nominated_refuted.
+
+Example T18_route_example :
+  let A := ex_hop 1 "fwd-00112233445566778899" in
+  let B := ex_hop 2 "fwd-aabbccddeeff00112233" in
+  let C := ex_hop 3 "other-0123456789abcdef0123" in
+  hops_ok [A; B; C; A; B] /\ tags_unique [A; B; C; A; B] = true /\
+  model_route [A; B; C; A; B] false (lines_hmap [b "1.0 edge (x)"]) = RouteRefused 400 /\
+  model_route [A; B; C] false (lines_hmap [b "1.0 edge (x)"]) =
+    RouteDelivered [b "1.0 edge (x), 1.1 fwd-00112233445566778899, 1.1 fwd-aabbccddeeff00112233, 1.1 other-0123456789abcdef0123"].
+Proof. exact route_example. Qed.
 
 (* Non-vacuity: a concrete chain over two field lines with a comment is forwarded with the
    element appended, and comes back refused. *)
